@@ -9,6 +9,7 @@ import (
 	"strings"
 
 	"github.com/onflow/crypto"
+	"github.com/onflow/crypto/hash"
 )
 
 type c06In struct {
@@ -25,6 +26,15 @@ type c06In struct {
 	Lens    []int `json:"lens,omitempty"`
 	Signers []int `json:"signers,omitempty"`
 	Salt    uint64 `json:"salt"`
+	// message (hex) and tag; HasMsg = false: the defaults
+	HasMsg bool   `json:"hasmsg,omitempty"`
+	Msg    string `json:"msg,omitempty"`
+	Tag    string `json:"tag,omitempty"`
+	// lambda mode: all sigmas given explicitly (algebraic coincidences)
+	Sigmas []string `json:"sigmas,omitempty"`
+	// badshare mode: kind of the invalid share and its position in the list
+	Bad string `json:"bad,omitempty"`
+	Pos int    `json:"pos,omitempty"`
 }
 
 func init() {
@@ -35,8 +45,8 @@ func init() {
 		PropCheck: "prop_bad_ids",
 		Gen:       c06Gen,
 		Run:       c06Run,
-		Rule:      "keygen cases (n,t,seed): private shares, group key, reconstruction from several signer subsets in several orders through the stateless and the stateful API; lambda cases: one Lagrange coefficient isolated by reconstructing from identity shares except one, signer sets straddling the 8-per-limb batches ({1..9}, {8,9}, {247..254}, descending, large t); error cases: sizes/thresholds out of range, count mismatch, not enough shares, duplicates, out-of-range indices, wrong-length shares; distinct by input",
-		Shard:     3,
+		Rule:      "keygen cases (n,t,seed): private shares, group key, reconstruction from several signer subsets in several orders through the stateless and the stateful API; lambda cases: one Lagrange coefficient isolated by reconstructing from identity shares except one, signer sets straddling the 8-per-limb batches ({1..9}, {8,9}, {247..254}, descending, large t); error cases: sizes/thresholds out of range, count mismatch, not enough shares, duplicates, out-of-range indices, wrong-length shares, several defects in one call (which check wins), empty lists, defects past the first t+1 entries, sizes / thresholds / indices valid only modulo 256 or 2^16, n = 254 with t = 253; keygen cases also vary message (empty, 1 byte, 300 bytes), tag (empty, other) and seed length (32, 300), include n = 254, check that arguments stay unmodified, VerifyShare(i, share_j) iff i = j, duplicate adds, and the participant object (SignShare = the signer's signature, own share first, reconstruction equal to the stateless one, constructor errors incl. index +-256, foreign and non-BLS keys); lambda-coincidence: all shares equal, two equal, a pair P / -P, a set interpolating to the point at infinity, on signer sets {1,2,3}, {4..12}, {254,8,9}; bad-share: wrong signer, wrong message, random G1 point, non-G1 curve point, identity, bad header, x >= p at positions 0, 2 (read) and 3 (not read) of a list of 5 through the stateless API, VerifyAndAdd (refused, not retained, object still reaches the group signature) and TrustedAdd + ThresholdSignature three times (documented error class every time); constructor-errors: BLSThresholdKeyGen / NewBLSThresholdSignatureInspector / EnoughShares on out-of-range and modulo-256 sizes and thresholds, short and nil seeds, non-BLS keys at every position; cases dealt round-robin over the shards; distinct by input",
+		Shard:     c06Shard,
 	})
 }
 
@@ -48,7 +58,7 @@ func c06Gen(tier string, r *rand.Rand) []Case {
 	if tier == "thorough" {
 		shapes = append(shapes, nt{7, 3}, nt{20, 10}, nt{40, 20}, nt{254, 1}, nt{254, 40}, nt{64, 63})
 	}
-	for _, s := range shapes {
+	for si, s := range shapes {
 		var subs [][]int
 		// first t+1, last t+1, a random subset in random order, a superset (only first t+1 are used)
 		first := make([]int, s.t+1)
@@ -73,7 +83,27 @@ func c06Gen(tier string, r *rand.Rand) []Case {
 			}
 			rec(0, nil)
 		}
-		add("keygen", c06In{Mode: "keygen", N: s.n, T: s.t, Seed: hx(rbytes(r, 32+r.IntN(33))), Subsets: subs})
+		in := c06In{Mode: "keygen", N: s.n, T: s.t, Seed: hx(rbytes(r, 32+r.IntN(33))), Subsets: subs}
+		// "every (n, t, seed, message, tag)": empty and long messages, other tags, seeds of 32 bytes exactly and long ones
+		switch si {
+		case 1:
+			in.HasMsg, in.Msg, in.Tag, in.Seed = true, "", "threshold-tag", hx(rbytes(r, 32))
+		case 3:
+			in.HasMsg, in.Msg, in.Tag, in.Seed = true, hx(rbytes(r, 300)), "", hx(rbytes(r, 300))
+		case 4:
+			in.HasMsg, in.Msg, in.Tag = true, hx(rbytes(r, 1)), "another tag"
+		}
+		add("keygen", in)
+	}
+	if tier != "thorough" {
+		// the largest group: indices up to 254 in key generation and in both reconstructions
+		first := make([]int, 10)
+		last := make([]int, 10)
+		for i := range first {
+			first[i], last[i] = i, 253-i
+		}
+		perm := r.Perm(254)
+		add("keygen-max-size", c06In{Mode: "keygen", N: 254, T: 9, Seed: hx(rbytes(r, 48)), Subsets: [][]int{first, last, perm[:10]}})
 	}
 	// isolated coefficients, sets straddling the limb batches
 	rng := func(a, b int) []int {
@@ -103,6 +133,67 @@ func c06Gen(tier string, r *rand.Rand) []Case {
 			add("lambda", c06In{Mode: "lambda", Idx: set, K: k, Sigma: hx(fixed(sg.Add(sg, big.NewInt(1)), 32))})
 		}
 	}
+	// algebraic coincidences among the shares: all equal (a constant polynomial), two equal, a pair P / -P,
+	// and a set whose interpolation at 0 is the point at infinity
+	rsc := func() *big.Int {
+		v := new(big.Int).Mod(new(big.Int).SetBytes(rbytes(r, 40)), new(big.Int).Sub(blsR, big.NewInt(1)))
+		return v.Add(v, big.NewInt(1))
+	}
+	for _, set := range [][]int{{0, 1, 2}, rng(3, 11), {253, 7, 8}} {
+		m := len(set)
+		mk := func(f func(j int, prev []*big.Int) *big.Int) []string {
+			var vals []*big.Int
+			var out []string
+			for j := 0; j < m; j++ {
+				v := f(j, vals)
+				vals = append(vals, v)
+				out = append(out, hx(fixed(v, 32)))
+			}
+			return out
+		}
+		c := rsc()
+		add("lambda-coincidence", c06In{Mode: "lambda", Idx: set, Sigmas: mk(func(int, []*big.Int) *big.Int { return c })})
+		add("lambda-coincidence", c06In{Mode: "lambda", Idx: set, Sigmas: mk(func(j int, prev []*big.Int) *big.Int {
+			if j == m-1 {
+				return prev[0]
+			}
+			return rsc()
+		})})
+		add("lambda-coincidence", c06In{Mode: "lambda", Idx: set, Sigmas: mk(func(j int, prev []*big.Int) *big.Int {
+			if j == 1 {
+				return new(big.Int).Sub(blsR, prev[0])
+			}
+			return rsc()
+		})})
+		// sum_j lambda_j sigma_j = 0: the last sigma is solved for
+		lam := c06Lagrange(set)
+		add("lambda-coincidence", c06In{Mode: "lambda", Idx: set, Sigmas: mk(func(j int, prev []*big.Int) *big.Int {
+			if j < m-1 {
+				return rsc()
+			}
+			acc := new(big.Int)
+			for k, v := range prev {
+				acc.Add(acc, new(big.Int).Mul(lam[k], v))
+			}
+			acc.Neg(acc)
+			acc.Mul(acc, new(big.Int).ModInverse(lam[m-1], blsR))
+			return acc.Mod(acc, blsR)
+		})})
+	}
+	// every kind of invalid share at every position of the list (first, inside, last of the t+1 that are
+	// read, and past them), through the stateless and the stateful API
+	for _, kind := range []string{"wrong-signer", "wrong-message", "random-g1", "non-g1", "malformed-header", "malformed-x", "identity"} {
+		npos := []int{0, 2, 3}
+		if tier == "thorough" {
+			npos = []int{0, 1, 2, 3, 4}
+		}
+		for _, pos := range npos {
+			add("bad-share-"+kind, c06In{Mode: "badshare", N: 6, T: 2, Seed: hx(rbytes(r, 32)), Bad: kind, Pos: pos})
+		}
+	}
+	// constructors and key generation: documented errors, also for sizes / thresholds / indices that are
+	// valid only modulo 256, and keys of another algorithm at every position
+	add("constructor-errors", c06In{Mode: "ctor", N: 5, T: 2, Seed: hx(rbytes(r, 32))})
 	// documented errors of the stateless API
 	add("error", c06In{Mode: "error", N: 1, T: 1, Lens: []int{48, 48}, Signers: []int{0, 1}})
 	add("error", c06In{Mode: "error", N: 255, T: 1, Lens: []int{48, 48}, Signers: []int{0, 1}})
@@ -120,10 +211,73 @@ func c06Gen(tier string, r *rand.Rand) []Case {
 		add("error-wide-index", c06In{Mode: "error", N: 4, T: 1, Lens: []int{48, 48}, Signers: []int{big, 2}})
 		add("error-wide-index", c06In{Mode: "error", N: 4, T: 1, Lens: []int{48, 48}, Signers: []int{0, big}})
 	}
+	// several defects in one call (which check wins is part of the contract), empty lists, defects past
+	// the first t+1 entries, sizes and thresholds valid only modulo 256, the extreme valid configuration
+	l48 := func(n int) []int {
+		o := make([]int, n)
+		for i := range o {
+			o[i] = 48
+		}
+		return o
+	}
+	add("error-mixed", c06In{Mode: "error", N: 4, T: 1, Lens: []int{}, Signers: []int{}})
+	add("error-mixed", c06In{Mode: "error", N: 4, T: 2, Lens: []int{48}, Signers: []int{0, 1}})
+	add("error-mixed", c06In{Mode: "error", N: 4, T: 1, Lens: []int{48, 47}, Signers: []int{1, 1}})
+	add("error-mixed", c06In{Mode: "error", N: 4, T: 1, Lens: []int{47, 48}, Signers: []int{1, 1}})
+	add("error-mixed", c06In{Mode: "error", N: 4, T: 1, Lens: []int{48, 47}, Signers: []int{9, 1}})
+	add("error-mixed", c06In{Mode: "error", N: 4, T: 1, Lens: []int{47, 48}, Signers: []int{1, 9}})
+	add("error-mixed", c06In{Mode: "error", N: 4, T: 1, Lens: l48(3), Signers: []int{0, 1, 7}})
+	add("error-mixed", c06In{Mode: "error", N: 4, T: 1, Lens: l48(3), Signers: []int{0, 1, -1}})
+	add("error-mixed", c06In{Mode: "error", N: 4, T: 1, Lens: []int{48, 48, 5, 48}, Signers: []int{0, 1, 2, 2}})
+	add("error-mixed", c06In{Mode: "error", N: 4, T: 1, Lens: []int{48, 48, 5, 48}, Signers: []int{0, 1, 2, 3}})
+	add("error-mixed", c06In{Mode: "error", N: 4, T: 1, Lens: l48(5), Signers: []int{0, 1, 2, 3, 0}})
+	add("error-mixed", c06In{Mode: "error", N: 1, T: 0, Lens: []int{47}, Signers: []int{5, 5}})
+	add("error-mixed", c06In{Mode: "error", N: 4, T: 4, Lens: []int{48}, Signers: []int{0, 0}})
+	for _, nt := range [][2]int{{260, 1}, {256 + 4, 257}, {4, 257}, {4, 256}, {-252, 1}, {4, -255}, {258, 2}, {65540, 1}, {0, 0}} {
+		add("error-wide-size", c06In{Mode: "error", N: nt[0], T: nt[1], Lens: l48(3), Signers: []int{0, 1, 2}})
+	}
+	add("error", c06In{Mode: "error", N: 2, T: 1, Lens: l48(2), Signers: []int{1, 0}})
+	add("error", c06In{Mode: "error", N: 254, T: 1, Lens: l48(2), Signers: []int{253, 0}})
+	add("error", c06In{Mode: "error", N: 254, T: 1, Lens: l48(2), Signers: []int{254, 0}})
+	add("error", c06In{Mode: "error", N: 254, T: 253, Lens: l48(253), Signers: rng(0, 252)})
+	add("error", c06In{Mode: "error", N: 254, T: 253, Lens: l48(254), Signers: rng(253, 0)})
+	add("error", c06In{Mode: "error", N: 254, T: 253, Lens: l48(254), Signers: append(rng(0, 252), 0)})
 	add("error", c06In{Mode: "error", N: 4, T: 1, Lens: []int{0, 48}, Signers: []int{0, 2}})
 	add("error", c06In{Mode: "error", N: 4, T: 1, Lens: []int{48, 48, 5}, Signers: []int{0, 2, 3}})
 	add("error", c06In{Mode: "error", N: 4, T: 1, Lens: []int{48, 48, 48}, Signers: []int{0, 2, 2}})
-	return cs
+	// the expensive cases (key generation, large signer sets) are contiguous in generation order: deal the
+	// cases round-robin over the shards so that every Coq file gets its share of them
+	nsh := (len(cs) + c06Shard - 1) / c06Shard
+	buckets := make([][]Case, nsh)
+	for i, c := range cs {
+		buckets[i%nsh] = append(buckets[i%nsh], c)
+	}
+	var out []Case
+	for _, b := range buckets {
+		out = append(out, b...)
+	}
+	return out
+}
+
+const c06Shard = 8
+
+// Lagrange coefficients at 0 for the 0-based signer indices (evaluation points idx+1), over F_r
+func c06Lagrange(idx []int) []*big.Int {
+	out := make([]*big.Int, len(idx))
+	for j := range idx {
+		num, den := big.NewInt(1), big.NewInt(1)
+		xj := big.NewInt(int64(idx[j] + 1))
+		for m := range idx {
+			if m == j {
+				continue
+			}
+			xm := big.NewInt(int64(idx[m] + 1))
+			num.Mod(num.Mul(num, xm), blsR)
+			den.Mod(den.Mul(den, new(big.Int).Sub(xm, xj)), blsR)
+		}
+		out[j] = num.Mod(num.Mul(num, new(big.Int).ModInverse(den, blsR)), blsR)
+	}
+	return out
 }
 
 func thrErrClass(err error) string {
@@ -150,6 +304,9 @@ func c06Run(c Case) (Result, error) {
 	rr := rand.New(rand.NewPCG(in.Salt, 0x06))
 	tag := "threshold-tag"
 	msg := []byte("c06 message")
+	if in.HasMsg {
+		tag, msg = in.Tag, unhx(in.Msg)
+	}
 	hs := crypto.NewExpandMsgXOFKMAC128(tag)
 	one, _ := crypto.DecodePrivateKey(crypto.BLSBLS12381, fixed(big.NewInt(1), 32))
 	hEnc, _ := one.Sign(msg, hs)
@@ -185,9 +342,19 @@ func c06Run(c Case) (Result, error) {
 			for _, i := range sub {
 				sh = append(sh, shares[i])
 			}
+			shCopy := make([][]byte, len(sh))
+			for k := range sh {
+				shCopy[k] = append([]byte{}, sh[k]...)
+			}
+			subCopy := append([]int{}, sub...)
 			out, err := crypto.BLSReconstructThresholdSignature(in.N, in.T, sh, sub)
 			if err != nil {
 				return Result{}, implViolation("reconstruction failed: %v", err)
+			}
+			for k := range sh {
+				if !bytes.Equal(sh[k], shCopy[k]) || sub[k] != subCopy[k] {
+					return Result{}, implViolation("BLSReconstructThresholdSignature modified its arguments (entry %d)", k)
+				}
 			}
 			if ok, _ := gpk.Verify(out, msg, hs); !ok {
 				fail("reconstructed signature does not verify under the group key")
@@ -216,6 +383,30 @@ func c06Run(c Case) (Result, error) {
 				fail("stateful reconstruction differs from the stateless one")
 			}
 			recons = append(recons, fmt.Sprintf("(%s, %s)", zl(sub), cqs(hx(out))))
+		}
+		// the participant object: its own share is the signer's signature, the reconstruction through it is
+		// the same 48 bytes; constructor errors
+		if why2 := c06Participant(in, rr, sks, pks, gpk, shares, msg, tag, hs); why2 != "" {
+			return Result{}, implViolation("%s", why2)
+		}
+		// public shares are usable: VerifyShare(i, share_j) holds exactly for i = j
+		if in.N <= 10 {
+			insp, _ := crypto.NewBLSThresholdSignatureInspector(gpk, pks, in.T, msg, tag)
+			for i := 0; i < in.N; i++ {
+				for j := 0; j < in.N; j++ {
+					if v, err := insp.VerifyShare(i, shares[j]); err != nil || v != (i == j) {
+						return Result{}, implViolation("VerifyShare(%d, share of signer %d) = (%v, %v)", i, j, v, err)
+					}
+				}
+			}
+			// duplicates through either add
+			_, _, _ = insp.VerifyAndAdd(0, shares[0])
+			if _, err := insp.TrustedAdd(0, shares[0]); !crypto.IsDuplicatedSignerError(err) {
+				return Result{}, implViolation("TrustedAdd of a signer already added returned %v", err)
+			}
+			if _, _, err := insp.VerifyAndAdd(0, shares[0]); !crypto.IsDuplicatedSignerError(err) {
+				return Result{}, implViolation("VerifyAndAdd of a signer already added returned %v", err)
+			}
 		}
 		// stateful object: an invalid share added with TrustedAdd must produce an error, never a bad signature
 		ts, _ := crypto.NewBLSThresholdSignatureInspector(gpk, pks, in.T, msg, tag)
@@ -285,8 +476,11 @@ func c06Run(c Case) (Result, error) {
 		for j, i := range in.Idx {
 			sg := new(big.Int).Mod(new(big.Int).SetBytes(rbytes(rr, 40)), new(big.Int).Sub(blsR, big.NewInt(1)))
 			sg.Add(sg, big.NewInt(1))
-			if j == in.K {
+			if j == in.K && in.Sigmas == nil {
 				sg.SetBytes(unhx(in.Sigma))
+			}
+			if in.Sigmas != nil {
+				sg.SetBytes(unhx(in.Sigmas[j]))
 			}
 			sk, err := crypto.DecodePrivateKey(crypto.BLSBLS12381, fixed(sg, 32))
 			if err != nil {
@@ -349,6 +543,342 @@ func c06Run(c Case) (Result, error) {
 		}
 		term := fmt.Sprintf("ErrorCase (%d)%%Z (%d)%%Z %s %s %s", in.N, in.T, cqlist(lens), zl(in.Signers), cqs(cls))
 		return Result{Coq: term, Key: string(c.Input), Nontrivial: true, Obs: map[string]any{"class": cls}}, nil
+	case "badshare":
+		return c06BadShare(c, in, rr, msg, tag, hs)
+	case "ctor":
+		return c06Ctor(c, in, rr, msg, tag, hs)
 	}
 	return Result{}, fmt.Errorf("unknown mode")
+}
+
+// ---------------------------------------------------------------------------------------------
+// the participant object of the stateful API
+func c06Participant(in c06In, rr *rand.Rand, sks []crypto.PrivateKey, pks []crypto.PublicKey, gpk crypto.PublicKey,
+	shares []crypto.Signature, msg []byte, tag string, hs hash.Hasher) (complaint string) {
+	if p, m := catch(func() {
+		my := rr.IntN(in.N)
+		part, err := crypto.NewBLSThresholdSignatureParticipant(gpk, pks, in.T, my, sks[my], msg, tag)
+		if err != nil {
+			complaint = fmt.Sprintf("NewBLSThresholdSignatureParticipant(index %d) failed: %v", my, err)
+			return
+		}
+		own, err := part.SignShare()
+		if err != nil || !bytes.Equal(own, shares[my]) {
+			complaint = fmt.Sprintf("SignShare of participant %d returned (%x, %v), the signer's signature is %x", my, []byte(own), err, []byte(shares[my]))
+			return
+		}
+		if v, err := part.VerifyShare(my, own); err != nil || !v {
+			complaint = fmt.Sprintf("the participant's own share does not verify: (%v, %v)", v, err)
+			return
+		}
+		// own share first, then others in descending order
+		order := []int{my}
+		for i := in.N - 1; i >= 0 && len(order) <= in.T; i-- {
+			if i != my {
+				order = append(order, i)
+			}
+		}
+		var used []crypto.Signature
+		for k, i := range order {
+			s := shares[i]
+			if i == my {
+				s = own
+			}
+			used = append(used, s)
+			var e error
+			if k%2 == 0 {
+				_, _, e = part.VerifyAndAdd(i, s)
+			} else {
+				_, e = part.TrustedAdd(i, s)
+			}
+			if e != nil {
+				complaint = fmt.Sprintf("participant: adding the share of signer %d failed: %v", i, e)
+				return
+			}
+		}
+		out, err := part.ThresholdSignature()
+		if err != nil {
+			complaint = fmt.Sprintf("participant: ThresholdSignature failed: %v", err)
+			return
+		}
+		ref, err := crypto.BLSReconstructThresholdSignature(in.N, in.T, used, order)
+		if err != nil || !bytes.Equal(ref, out) {
+			complaint = fmt.Sprintf("participant: threshold signature %x differs from the stateless reconstruction %x (%v)", []byte(out), []byte(ref), err)
+			return
+		}
+		if v, err := gpk.Verify(out, msg, hs); err != nil || !v {
+			complaint = "participant: threshold signature does not verify under the group key"
+			return
+		}
+		if v, err := part.VerifyThresholdSignature(out); err != nil || !v {
+			complaint = "participant: VerifyThresholdSignature rejects the object's own threshold signature"
+			return
+		}
+		// constructor errors
+		for _, bad := range []int{-1, in.N, in.N + 256, my + 256, my - 256, my + 65536} {
+			if _, err := crypto.NewBLSThresholdSignatureParticipant(gpk, pks, in.T, bad, sks[my], msg, tag); !crypto.IsInvalidInputsError(err) {
+				complaint = fmt.Sprintf("NewBLSThresholdSignatureParticipant with index %d (group of %d) returned %v, documented: invalid-input error", bad, in.N, err)
+				return
+			}
+		}
+		if _, err := crypto.NewBLSThresholdSignatureParticipant(gpk, pks, in.T, my, sks[(my+1)%in.N], msg, tag); !crypto.IsInvalidInputsError(err) {
+			complaint = fmt.Sprintf("NewBLSThresholdSignatureParticipant with another participant's private key returned %v", err)
+			return
+		}
+		ec, _ := crypto.GeneratePrivateKey(crypto.ECDSAP256, bytes.Repeat([]byte{7}, 32))
+		if _, err := crypto.NewBLSThresholdSignatureParticipant(gpk, pks, in.T, my, ec, msg, tag); !crypto.IsNotBLSKeyError(err) {
+			complaint = fmt.Sprintf("NewBLSThresholdSignatureParticipant with an ECDSA private key returned %v", err)
+			return
+		}
+	}); p {
+		return "participant object: panic: " + strings.Split(m, "\n")[0]
+	}
+	return complaint
+}
+
+// one invalid share of a given kind at a given position of a list of 5 (t = 2: three are read)
+func c06BadShare(c Case, in c06In, rr *rand.Rand, msg []byte, tag string, hs hash.Hasher) (Result, error) {
+	sks, pks, gpk, err := crypto.BLSThresholdKeyGen(in.N, in.T, unhx(in.Seed))
+	if err != nil {
+		return Result{}, err
+	}
+	const m = 5
+	var shares []crypto.Signature
+	for i := 0; i < in.N; i++ {
+		s, _ := sks[i].Sign(msg, hs)
+		shares = append(shares, s)
+	}
+	signers := []int{0, 1, 2, 3, 4}
+	var bad []byte
+	wellFormed := true
+	switch in.Bad {
+	case "wrong-signer":
+		bad = shares[5]
+	case "wrong-message":
+		bad, _ = sks[in.Pos].Sign(append([]byte("x"), msg...), hs)
+	case "random-g1":
+		k, _ := crypto.GeneratePrivateKey(crypto.BLSBLS12381, rbytes(rr, 32))
+		bad, _ = k.Sign(msg, hs)
+	case "non-g1":
+		for {
+			b := rbytes(rr, 48)
+			b[0] = (b[0] & 0x1F) | 0x80
+			if _, err := crypto.AggregateBLSSignatures([]crypto.Signature{b}); err == nil {
+				bad = b
+				break
+			}
+		}
+	case "identity":
+		bad = make([]byte, 48)
+		bad[0] = 0xC0
+	case "malformed-header":
+		bad = append([]byte{}, shares[in.Pos]...)
+		bad[0] &= 0x7F
+		wellFormed = false
+	case "malformed-x":
+		bad = bytes.Repeat([]byte{0xff}, 48)
+		bad[0] = 0x9f
+		wellFormed = false
+	default:
+		return Result{}, fmt.Errorf("unknown bad-share kind %q", in.Bad)
+	}
+	clean, err := crypto.BLSReconstructThresholdSignature(in.N, in.T, shares[:m], signers)
+	cls := thrErrClass(err)
+	if err != nil {
+		return Result{}, implViolation("reconstruction from valid shares failed: %v", err)
+	}
+	if v, _ := gpk.Verify(clean, msg, hs); !v {
+		return Result{}, implViolation("reconstruction from valid shares does not verify")
+	}
+	complaint := ""
+	if p, pm := catch(func() {
+		list := make([]crypto.Signature, m)
+		for i := range list {
+			list[i] = append([]byte{}, shares[i]...)
+		}
+		list[in.Pos] = append([]byte{}, bad...)
+		out, err := crypto.BLSReconstructThresholdSignature(in.N, in.T, list, signers)
+		switch {
+		case in.Pos > in.T:
+			if err != nil || !bytes.Equal(out, clean) {
+				complaint = fmt.Sprintf("an invalid share past the first t+1 entries changed the result: (%x, %v)", []byte(out), err)
+			}
+		case !wellFormed:
+			if !crypto.IsInvalidSignatureError(err) {
+				complaint = fmt.Sprintf("stateless reconstruction with a malformed share returned (%x, %v), documented: errInvalidSignature", []byte(out), err)
+			}
+		default:
+			if err != nil {
+				complaint = fmt.Sprintf("stateless reconstruction with a well-formed wrong share returned %v", err)
+			} else if v, verr := gpk.Verify(out, msg, hs); v || verr != nil {
+				complaint = fmt.Sprintf("stateless reconstruction with a wrong share gives a signature that verifies (%v, %v)", v, verr)
+			}
+		}
+		if complaint != "" || in.Pos > in.T {
+			return
+		}
+		// stateful, verified adds: the invalid share is refused and not retained, the object still reaches
+		// the group signature
+		i1, _ := crypto.NewBLSThresholdSignatureInspector(gpk, pks, in.T, msg, tag)
+		for i := 0; i <= in.T; i++ {
+			if i == in.Pos {
+				v, _, err := i1.VerifyAndAdd(i, append([]byte{}, bad...))
+				if v || err != nil {
+					complaint = fmt.Sprintf("VerifyAndAdd of an invalid share returned (%v, %v)", v, err)
+					return
+				}
+				if has, _ := i1.HasShare(i); has {
+					complaint = "VerifyAndAdd retained an invalid share"
+					return
+				}
+				if v, err := i1.VerifyShare(i, append([]byte{}, bad...)); v || err != nil {
+					complaint = fmt.Sprintf("VerifyShare of an invalid share returned (%v, %v)", v, err)
+					return
+				}
+			}
+			if v, _, err := i1.VerifyAndAdd(i, shares[i]); !v || err != nil {
+				complaint = fmt.Sprintf("VerifyAndAdd of the valid share after the refused one returned (%v, %v)", v, err)
+				return
+			}
+		}
+		if out, err := i1.ThresholdSignature(); err != nil || !bytes.Equal(out, clean) {
+			complaint = fmt.Sprintf("after refusing an invalid share the object returns (%x, %v), expected the group signature", []byte(out), err)
+			return
+		}
+		// stateful, unverified adds: an error of the documented class on every call, never a signature
+		i2, _ := crypto.NewBLSThresholdSignatureInspector(gpk, pks, in.T, msg, tag)
+		for _, i := range []int{2, 0, 1} {
+			s := shares[i]
+			if i == in.Pos {
+				s = append([]byte{}, bad...)
+			}
+			if _, err := i2.TrustedAdd(i, s); err != nil {
+				complaint = fmt.Sprintf("TrustedAdd returned %v", err)
+				return
+			}
+		}
+		for call := 1; call <= 3; call++ {
+			out, err := i2.ThresholdSignature()
+			switch {
+			case err == nil:
+				v, _ := gpk.Verify(out, msg, hs)
+				complaint = fmt.Sprintf("call %d: ThresholdSignature returned %x (verifies: %v) from a pool with an invalid share", call, []byte(out), v)
+			case !wellFormed && !crypto.IsInvalidSignatureError(err):
+				complaint = fmt.Sprintf("call %d: malformed share in the pool: %v, documented: errInvalidSignature", call, err)
+			case wellFormed && !crypto.IsInvalidInputsError(err):
+				complaint = fmt.Sprintf("call %d: wrong share in the pool: %v, documented: invalid-input error", call, err)
+			}
+			if complaint != "" {
+				return
+			}
+		}
+	}); p {
+		return Result{}, implViolation("invalid share (%s at position %d): panic: %s", in.Bad, in.Pos, strings.Split(pm, "\n")[0])
+	}
+	if complaint != "" {
+		return Result{}, implViolation("%s [kind %s, position %d, share %x]", complaint, in.Bad, in.Pos, bad)
+	}
+	term := fmt.Sprintf("ErrorCase (%d)%%Z (%d)%%Z [48%%nat; 48%%nat; 48%%nat; 48%%nat; 48%%nat] [0%%Z; 1%%Z; 2%%Z; 3%%Z; 4%%Z] %s", in.N, in.T, cqs(cls))
+	return Result{Coq: term, Key: string(c.Input), Nontrivial: true, Obs: map[string]any{"bad": in.Bad, "pos": in.Pos, "share": hx(bad)}}, nil
+}
+
+// constructors, key generation and the stateless EnoughShares: documented errors
+func c06Ctor(c Case, in c06In, rr *rand.Rand, msg []byte, tag string, hs hash.Hasher) (Result, error) {
+	seed := unhx(in.Seed)
+	complaint := ""
+	if p, pm := catch(func() {
+		for _, nt := range [][2]int{{0, 1}, {1, 1}, {1, 0}, {255, 1}, {256 + 5, 2}, {65536 + 5, 2}, {-5, 2}, {-251, 2}, {5, 0}, {5, 5}, {5, 6}, {5, -1}, {5, 256 + 2}, {5, -254}, {300, 256 + 2}} {
+			a, b, g, err := crypto.BLSThresholdKeyGen(nt[0], nt[1], seed)
+			if !crypto.IsInvalidInputsError(err) || a != nil || b != nil || g != nil {
+				complaint = fmt.Sprintf("BLSThresholdKeyGen(%d, %d) returned error %v (keys nil: %v), documented: nil keys and an invalid-input error", nt[0], nt[1], err, a == nil && b == nil && g == nil)
+				return
+			}
+		}
+		for _, l := range []int{0, 1, 16, 31} {
+			if _, _, _, err := crypto.BLSThresholdKeyGen(in.N, in.T, make([]byte, l)); !crypto.IsInvalidInputsError(err) {
+				complaint = fmt.Sprintf("BLSThresholdKeyGen with a %d-byte seed returned %v", l, err)
+				return
+			}
+		}
+		if _, _, _, err := crypto.BLSThresholdKeyGen(in.N, in.T, nil); !crypto.IsInvalidInputsError(err) {
+			complaint = fmt.Sprintf("BLSThresholdKeyGen with a nil seed returned %v", err)
+			return
+		}
+		for _, nt := range [][2]int{{2, 1}, {254, 253}, {254, 1}} {
+			a, b, g, err := crypto.BLSThresholdKeyGen(nt[0], nt[1], seed)
+			if err != nil || len(a) != nt[0] || len(b) != nt[0] || g == nil {
+				complaint = fmt.Sprintf("BLSThresholdKeyGen(%d, %d) failed: %v", nt[0], nt[1], err)
+				return
+			}
+			for _, i := range []int{0, nt[0] - 1} {
+				if !a[i].PublicKey().Equals(b[i]) {
+					complaint = fmt.Sprintf("BLSThresholdKeyGen(%d, %d): private share %d does not match its public share", nt[0], nt[1], i)
+					return
+				}
+			}
+		}
+		_, pks, gpk, err := crypto.BLSThresholdKeyGen(in.N, in.T, seed)
+		if err != nil {
+			complaint = "key generation failed: " + err.Error()
+			return
+		}
+		rep := func(n int) []crypto.PublicKey {
+			o := make([]crypto.PublicKey, n)
+			for i := range o {
+				o[i] = pks[i%len(pks)]
+			}
+			return o
+		}
+		for _, n := range []int{0, 1, 255, 256 + 5, 300} {
+			if _, err := crypto.NewBLSThresholdSignatureInspector(gpk, rep(n), 1, msg, tag); !crypto.IsInvalidInputsError(err) && !(n <= 1) {
+				complaint = fmt.Sprintf("NewBLSThresholdSignatureInspector with %d key shares returned %v", n, err)
+				return
+			} else if n <= 1 && !crypto.IsInvalidInputsError(err) {
+				complaint = fmt.Sprintf("NewBLSThresholdSignatureInspector with %d key shares returned %v", n, err)
+				return
+			}
+		}
+		for _, t := range []int{0, -1, in.N, in.N + 1, 256 + 2, -254, 65536 + 1} {
+			if _, err := crypto.NewBLSThresholdSignatureInspector(gpk, pks, t, msg, tag); !crypto.IsInvalidInputsError(err) {
+				complaint = fmt.Sprintf("NewBLSThresholdSignatureInspector(threshold %d, %d shares) returned %v", t, in.N, err)
+				return
+			}
+		}
+		ec, _ := crypto.GeneratePrivateKey(crypto.ECDSASecp256k1, bytes.Repeat([]byte{9}, 32))
+		for _, pos := range []int{0, in.N / 2, in.N - 1} {
+			l := rep(in.N)
+			l[pos] = ec.PublicKey()
+			if _, err := crypto.NewBLSThresholdSignatureInspector(gpk, l, in.T, msg, tag); !crypto.IsNotBLSKeyError(err) {
+				complaint = fmt.Sprintf("NewBLSThresholdSignatureInspector with an ECDSA key share at index %d returned %v", pos, err)
+				return
+			}
+		}
+		if _, err := crypto.NewBLSThresholdSignatureInspector(ec.PublicKey(), pks, in.T, msg, tag); !crypto.IsNotBLSKeyError(err) {
+			complaint = fmt.Sprintf("NewBLSThresholdSignatureInspector with an ECDSA group key returned %v", err)
+			return
+		}
+		// stateless EnoughShares
+		for _, q := range []struct {
+			t, k int
+			want bool
+			bad  bool
+		}{{0, 5, false, true}, {-1, 5, false, true}, {-255, 5, false, true}, {2, 2, false, false}, {2, 3, true, false}, {1, 0, false, false}, {1, -5, false, false},
+			{257, 2, false, false}, {257, 258, true, false}, {2, 256 + 1, true, false}, {300, 256 + 45, true, false}, {1, 2, true, false}} {
+			got, err := crypto.EnoughShares(q.t, q.k)
+			if q.bad && (!crypto.IsInvalidInputsError(err) || got) || !q.bad && (err != nil || got != q.want) {
+				complaint = fmt.Sprintf("EnoughShares(%d, %d) = (%v, %v)", q.t, q.k, got, err)
+				return
+			}
+		}
+	}); p {
+		return Result{}, implViolation("constructors: panic: %s", strings.Split(pm, "\n")[0])
+	}
+	if complaint != "" {
+		return Result{}, implViolation("%s", complaint)
+	}
+	var cls string
+	_, err := crypto.BLSReconstructThresholdSignature(in.N, in.T, nil, nil)
+	cls = thrErrClass(err)
+	term := fmt.Sprintf("ErrorCase (%d)%%Z (%d)%%Z [] [] %s", in.N, in.T, cqs(cls))
+	return Result{Coq: term, Key: string(c.Input), Nontrivial: true, Obs: map[string]any{"class": cls}}, nil
 }
